@@ -78,7 +78,11 @@ def main(tier, replay=None):
         ev = t["event"]
         sname = t["scenario"]["name"]
         fam = "-".join(sname.split("-")[:2])
-        if sname.startswith("outage-request-newblock") and not t["what"].startswith("hung"):
+        if t["what"] in ("process_died",) or t["what"].startswith("hung") or t["what"].startswith("abort:"):
+            # the tower went down / stayed blocked because of the outage: it did not recover by itself
+            verdict.disagree(t["what"], ev["act"], fam, "C12: %s (scenario %s, trace %s line %d)" % (t["what"], sname, t["trace"], t["line"]),
+                             {"scenario": t["scenario"], "tag": [t["line"], t["prop"], t["what"]], "event": ev})
+        elif sname.startswith("outage-request-newblock"):
             # the blocked request and the chain thread run concurrently here: only "nobody stays blocked" is judged from this
             # scenario (which thread's event an effect is attributed to depends on the schedule; see the concurrency checks)
             others[(t["prop"], t["what"])] = others.get((t["prop"], t["what"]), 0) + 1
